@@ -367,12 +367,19 @@ class IntervalTier(textgrid_tier.TextgridTier):
                     )
 
             # Special case: an interval that spanned the deleted
-            # section
+            # section (two different entries that come to meet at
+            # /start/ stay two entries, also when their labels are the same)
+            spanned = (
+                collisionMode == constants.EraseCollision.TRUNCATE
+                and len(matchList) == 1
+                and matchList[0].start < start
+                and matchList[0].end > end
+            )
             for i in range(0, len(newEntryList) - 1):
                 rightEdge = newEntryList[i].end == start
                 leftEdge = newEntryList[i + 1].start == start
                 sameLabel = newEntryList[i].label == newEntryList[i + 1].label
-                if rightEdge and leftEdge and sameLabel:
+                if spanned and rightEdge and leftEdge and sameLabel:
                     newInterval = Interval(
                         newEntryList[i].start,
                         newEntryList[i + 1].end,
